@@ -107,6 +107,8 @@ pub const TARGETS: &[Tgt] = &[Tgt::New, Tgt::One, Tgt::SameLen, Tgt::Big, Tgt::T
 
 #[derive(Clone, Copy, Debug, PartialEq, Eq, Hash, Serialize, Deserialize)]
 pub enum MapOp {
+    RawEntry(u8, crate::mapentry::RBuild, crate::mapentry::RAct),
+    RustcEntry(u8, crate::mapentry::RuAct),
     CloneDrop,
     CloneInto(Tgt),
     Insert(u8),
@@ -145,6 +147,8 @@ pub struct Alphabet {
     pub shrink_to: Vec<Shr>,
     pub retain: Vec<Ret>,
     pub clone: bool,
+    pub raw_entry: bool,
+    pub rustc_entry: bool,
 }
 impl Alphabet {
     pub fn full() -> Self {
@@ -164,6 +168,8 @@ impl Alphabet {
             shrink_to: vec![Shr::Zero, Shr::Len, Shr::LenPlus1, Shr::CapMinus1],
             retain: vec![Ret::All, Ret::None, Ret::EvenIds, Ret::Alternate],
             clone: true,
+            raw_entry: false,
+            rustc_entry: false,
         }
     }
     /// insert / remove / clear / reserve / shrink (the state-changing core)
@@ -184,6 +190,8 @@ impl Alphabet {
             shrink_to: vec![Shr::LenPlus1],
             retain: vec![],
             clone: false,
+            raw_entry: false,
+            rustc_entry: false,
         }
     }
     /// insert / remove only (C13 churn)
@@ -204,6 +212,8 @@ impl Alphabet {
             shrink_to: vec![],
             retain: vec![],
             clone: false,
+            raw_entry: false,
+            rustc_entry: false,
         }
     }
 }
@@ -237,6 +247,8 @@ pub struct MapCfg {
     pub check_alloc_size: bool,
     /// C13: bucket count must never exceed this
     pub bucket_bound: Option<usize>,
+    /// build the map with the alternative hasher instance (environment's second plan)
+    pub alt_hasher: bool,
 }
 impl MapCfg {
     pub fn new(plan: Plan, universe: u8) -> Self {
@@ -250,6 +262,7 @@ impl MapCfg {
             max_live: None,
             check_alloc_size: true,
             bucket_bound: None,
+            alt_hasher: false,
         }
     }
     /// class of each key id: index of its hash among the plan's distinct hashes
@@ -293,6 +306,7 @@ pub struct MapSut<K: KeyT, V: ValT> {
     /// auxiliary collection of the operation in progress (clone target), kept
     /// here so that it can be examined after a panic
     pub aux: Option<Map<K, V>>,
+    pub alt: bool,
     /// ledger baselines at creation (a nested system shares the thread's ledgers)
     pub base: Baseline,
 }
@@ -317,13 +331,13 @@ impl Baseline {
 
 impl<K: KeyT, V: ValT> MapSut<K, V> {
     pub fn new(cfg: &MapCfg) -> Self {
-        Self::with_map(cfg, Map::<K, V>::default())
+        Self::with_map(cfg, Map::<K, V>::with_hasher_in(PlanBuild { alt: cfg.alt_hasher }, CheckAlloc))
     }
     pub fn with_map(cfg: &MapCfg, map: Map<K, V>) -> Self {
         let base = Baseline::take();
         let class_of = cfg.class_of();
         let probe_keys = (0..cfg.universe).map(|id| K::make(id, PROBE_TOK)).collect();
-        MapSut { map, model: Vec::new(), next_tok: 1, probe_keys, class_of, aux: None, base }
+        MapSut { map, model: Vec::new(), next_tok: 1, probe_keys, class_of, aux: None, alt: cfg.alt_hasher, base }
     }
     pub fn tok(&mut self) -> u32 {
         let t = self.next_tok;
@@ -341,8 +355,9 @@ impl<K: KeyT, V: ValT> MapSut<K, V> {
     pub fn check_all(&mut self, universe: u8, lawful: bool, check_alloc_size: bool) -> Result<(), String> {
         let d = self.map.verif_dump();
         let map = &self.map;
+        let alt = self.alt;
         inv::check_structure(&d, inv::Which { lawful_hash: lawful }, &|i| {
-            map.verif_bucket(i).map(|(k, _)| plan_hash(k.id()))
+            map.verif_bucket(i).map(|(k, _)| if alt { env::with(|e| e.plan_b[k.id() as usize]) } else { plan_hash(k.id()) })
         })?;
         if self.map.len() != self.model.len() {
             return Err(format!("len() = {} but the reference holds {} pairs", self.map.len(), self.model.len()));
@@ -410,6 +425,15 @@ impl<K: KeyT, V: ValT> MapSut<K, V> {
             }
         }
         Ok(())
+    }
+
+    /// Drop everything without checking the ledgers; returns the baseline.
+    pub fn dispose(self) -> Baseline {
+        let MapSut { map, probe_keys, aux, base, .. } = self;
+        drop(aux);
+        drop(map);
+        drop(probe_keys);
+        base
     }
 
     /// Drop the map and check the ledgers.
@@ -661,6 +685,8 @@ impl<K: KeyT, V: ValT> MapHarness<K, V> {
                 let n = items.len();
                 sut.map = HintIter { inner: items.into_iter(), hint: (n, Some(n)) }.collect();
             }
+            MapOp::RawEntry(id, b, act) => crate::mapentry::raw_entry_op(sut, id, b, act, c)?,
+            MapOp::RustcEntry(id, act) => crate::mapentry::rustc_entry_op(sut, id, act, c)?,
             MapOp::Clear => {
                 sut.map.clear();
                 sut.model.clear();
@@ -1102,11 +1128,18 @@ impl<K: KeyT, V: ValT> Harness for MapHarness<K, V> {
 
     fn init(&self) -> MapSut<K, V> {
         env::reset();
-        env::set_plan(&self.plan);
+        if self.cfg.alt_hasher {
+            env::with(|e| e.plan_b = self.plan);
+        } else {
+            env::set_plan(&self.plan);
+        }
         MapSut::new(&self.cfg)
     }
 
     fn init_nested(&self) -> MapSut<K, V> {
+        if self.cfg.alt_hasher {
+            env::with(|e| e.plan_b = self.plan);
+        }
         MapSut::new(&self.cfg)
     }
 
@@ -1151,6 +1184,23 @@ impl<K: KeyT, V: ValT> Harness for MapHarness<K, V> {
                         continue;
                     }
                     v.push(MapOp::Extend(x, id));
+                }
+            }
+        }
+        for &id in &keys {
+            if !may_insert(id) {
+                continue;
+            }
+            if a.raw_entry {
+                for &b in crate::mapentry::RBUILDS {
+                    for &act in crate::mapentry::RACTS {
+                        v.push(MapOp::RawEntry(id, b, act));
+                    }
+                }
+            }
+            if a.rustc_entry {
+                for &act in crate::mapentry::RUACTS {
+                    v.push(MapOp::RustcEntry(id, act));
                 }
             }
         }
@@ -1222,6 +1272,13 @@ impl<K: KeyT, V: ValT> Harness for MapHarness<K, V> {
             match *p {
                 Probe::Iterators => mp::probe_iterators(rebuild, sut, stats)?,
                 Probe::Removal { max_subset_len } => mp::probe_removal(rebuild, sut, self.cfg.universe, max_subset_len, stats)?,
+                Probe::Entry => {
+                    for id in 0..self.cfg.universe {
+                        crate::mapentry::raw_entry_lookup(sut, id)?;
+                    }
+                    stats.probe(3 * self.cfg.universe as u64);
+                }
+                Probe::ManyMut => mp::probe_many_mut(sut, self.cfg.universe, stats)?,
                 Probe::Capacity => mp::probe_capacity(rebuild, sut, self.cfg.universe, stats)?,
                 Probe::TryReserve => mp::probe_try_reserve(rebuild, sut, self.cfg.universe, stats)?,
                 _ => {}
